@@ -32,6 +32,21 @@ TOUCHING = [
      [[(5, -1), (5, 5), (6, 5), (6, 0), (7, 0), (7, 5), (8, 5), (8, 0), (9, 0), (9, 5), (10, 5), (10, 0), (11, 0), (11, -1)]]),
     ([[(-2, 10), (1, 10), (1, 9), (-2, 9)], [(-10, 9), (-1, 9), (-1, 14), (-10, 14)]],
      [[(-3, 11), (0, 11), (0, 10), (-3, 10)], [(-2, 13), (5, 13), (5, 12), (7, 12), (7, 11), (-2, 11)], [(-8, -3), (-10, -14), (-11, -9)]]),
+    # (OR not AND) of this pair: the hole left by the common square was attached to a contour that does not contain it
+    ([[(10, 7), (17, 7), (17, 8), (11, 8), (11, 9), (10, 9)],
+      [(-4, -11), (-4, -5), (-3, -5), (-3, -10), (-2, -10), (-2, -5), (-1, -5), (-1, -10), (0, -10), (0, -5), (1, -5), (1, -10), (2, -10), (2, -11)]],
+     [[(12, 7), (19, 7), (19, 8), (13, 8), (13, 9), (12, 9)],
+      [(-1, -7), (0, -7), (0, -5), (2, -5), (2, -3), (3, -3), (3, -1), (5, -1), (5, 2), (6, 2), (6, 4), (-1, 4)],
+      [(6, 19), (13, 19), (13, 8), (6, 8)]]),
+    # the opposite case: real holes (XOR, OR not AND of slightly shifted copies) one of whose vertices lies a fraction of a grid unit
+    # outside the contour that owns them, by the rounding of an intersection - these must stay holes
+    ([[(7, 2), (1, 2), (0, 1), (-6, -3), (-9, 2), (-6, 9), (-1, 12), (4, 9)], [(-10, 2), (-18, 6), (-18, 12), (-11, 11), (-8, 9)]],
+     [[(8, 0), (2, 0), (1, -1), (-5, -5), (-8, 0), (-5, 7), (0, 10), (5, 7)]]),
+    ([[(3, 10), (3, 19), (10, 14), (13, 7), (7, 7)]],
+     [[(2, 11), (2, 20), (9, 15), (12, 8), (6, 8)], [(6, -8), (11, -9), (10, -12)]]),
+    ([[(-15, 9), (-10, -1), (-7, 1), (0, 6), (-6, 9)], [(-14, 0), (-13, 9), (-10, 2), (-1, 3), (-7, -3), (-10, -2), (-17, -5)],
+      [(-1, -1), (5, -1), (5, -2), (4, -2), (4, -4), (1, -4), (1, -5), (0, -5), (0, -6), (-1, -6)]],
+     [[(-14, 7), (-9, -3), (-6, -1), (1, 4), (-5, 7)]]),
 ]
 
 
@@ -83,6 +98,12 @@ def make_case(i):
     touching = random.Random(sd + 5).random() < 0.04
     if touching:
         A, B = touching_pair(random.Random(sd + 6))
+    if style == 2:
+        # domain of the statement: scaled coordinates within 62 bits (the clipping engine refuses anything beyond +-2^62 with an exception)
+        maxc = max(abs(v) for grp in (A, B) for poly in grp for q in poly for v in q)
+        while maxc * s >= 2.0 ** 61 and s > 2.0 ** 40:
+            s /= 16.0
+        K = int(s)
     c = Case('B%d' % i, timeout=60)
     c.op('arr', 'new')
     for p in A:
@@ -107,7 +128,8 @@ def make_case(i):
     h += 1
     # chained operations on results (operands with keyholes / many pieces):  names refer to earlier results
     chains = [('a5', 'a1', 'or'), ('a2', 'a3', 'not'), ('a4', 'a3', 'or'), ('a5', 'a6', 'xor'), ('a2', 'a2', 'and')]
-    for x, y, op in rnd.sample(chains, 3):
+    picked = rnd.sample(chains, 3)
+    for x, y, op in (chains if touching else picked):
         c.op('boolean', x, y, op, fl(s))
         plan.append(('a%d' % h, x, y, op))
         h += 1
